@@ -172,6 +172,9 @@ def write_evidence(cid, tier, seed, check, res, violations, known_lines, extra=N
         "violations": int(violations),
     }
     d = os.path.join(VERIF, "evidence")
+    if os.path.realpath(os.environ.get("VERIF_REPO", "/repo")) != os.path.realpath("/repo"):
+        # a run against some other tree (a mutant copy, a scratch worktree) must not overwrite the evidence of /repo
+        d = os.path.join(VERIF, "replays", "evidence-other-tree")
     os.makedirs(d, exist_ok=True)
     with open(os.path.join(d, "%s.json" % cid), "w") as fh:
         json.dump(ev, fh, indent=1, default=repr, sort_keys=False)
